@@ -332,8 +332,11 @@ impl<Octs: Octets> Parameter<Octs> {
         if typ == 2 {
             // There might be more than Capability within a single Optional
             // Parameter, so we need to loop.
-            while parser.pos() < pos + 2 + len {
-                Capability::parse(parser)?;
+            // Validate them within the bounds of this parameter, exactly
+            // as the capabilities() iterator will read them.
+            let mut caps_parser = parser.parse_parser(len)?;
+            while caps_parser.remaining() > 0 {
+                Capability::parse(&mut caps_parser)?;
             }
         } else {
             warn!("Optional Parameter in BGP OPEN other than Capability: {}",
